@@ -22,6 +22,7 @@ func init() {
 	register("C09", &propDef{
 		Title: "A bundle survives being re-opened and archived",
 		Rules: []func(*Checker){ruleC09Fields, ruleC09Archive, ruleChecksum("C09.checksum"), ruleC06ManifestAs("C09.addrs"),
+			aliasRuleFiltered(ruleC06CanonURL, "C06.canonurl", "C09.canonkey", 1, func(o Oblig) bool { return strings.Contains(o.Key, "canonical") }),
 			aliasRuleFiltered(ruleC13Maps, "C13.maps", "C09.lookup", 3, func(o Oblig) bool { return strings.Contains(o.Key, "sourcebundle.Bundle)") })},
 		NotDecided: []string{
 			"equality of two bundles; the Pack/Unpack round trip (C02) and address round trip (C06) for the values involved",
@@ -1051,15 +1052,38 @@ func ruleC17Dep(c *Checker) {
 	c.check(keyOK, R, name, "recorded under the selected version", p.Pos(site.Pos()), "resolvedRegistry key contains the selected version", "the answer is recorded under a different version than the one selected")
 	// deprecation association (in the resolver or a private helper of it)
 	depOK := false
+	sameUsed := false
 	var rangedOK, ranged = true, 0
 	for member := range p.family(fn) {
 		eachInstr(member, func(in ssa.Instruction) {
-			cl, ok := in.(*ssa.Call)
-			if !ok || calleeObj(cl) == nil || calleeObj(cl).Name() != "Same" {
+			// the match is exact equality of version values (==): Version.Same ignores build metadata,
+			// and two offered versions may differ in nothing else, each with its own note
+			var operands []ssa.Value
+			var cond ssa.Value
+			switch x := in.(type) {
+			case *ssa.Call:
+				if calleeObj(x) == nil || calleeObj(x).Name() != "Same" {
+					return
+				}
+				for _, a := range x.Call.Args {
+					if p.backSlice(a, 1)[sel] {
+						sameUsed = true
+					}
+				}
+				return
+			case *ssa.BinOp:
+				if x.Op != token.EQL {
+					return
+				}
+				if n, ok := types.Unalias(x.X.Type()).(*types.Named); !ok || n.Obj().Name() != "Version" {
+					return
+				}
+				operands, cond = []ssa.Value{x.X, x.Y}, x
+			default:
 				return
 			}
 			argsDep := false
-			for _, a := range cl.Call.Args {
+			for _, a := range operands {
 				if p.backSlice(a, 1)[sel] {
 					argsDep = true
 				}
@@ -1069,14 +1093,14 @@ func ruleC17Dep(c *Checker) {
 			}
 			// the true edge guards the use of the Deprecation of the very element whose Version was compared
 			var verBases []ssa.Value
-			for _, a := range cl.Call.Args {
+			for _, a := range operands {
 				for x := range p.backSlice(a, 0) {
 					if fa, ok := x.(*ssa.FieldAddr); ok && fieldOf(fa).Name() == "Version" {
 						verBases = append(verBases, canon(fa.X))
 					}
 				}
 			}
-			t, _ := boolEdges(member, cl)
+			t, _ := boolEdges(member, cond)
 			for _, e := range t {
 				for _, x := range e.To().Instrs {
 					if fa, ok := x.(*ssa.FieldAddr); ok && fieldOf(fa).Name() == "Deprecation" {
@@ -1115,7 +1139,11 @@ func ruleC17Dep(c *Checker) {
 			}
 		})
 	}
-	c.check(depOK, R, name, "deprecation of the selected version", p.Pos(site.Pos()), "the recorded deprecation is the one attached to the element whose version is the selected one", "the deprecation note recorded is not tied to the selected version")
+	whyDep := "the deprecation note recorded is not tied to the selected version"
+	if sameUsed && !depOK {
+		whyDep = "the element whose note is recorded is found with Version.Same, which ignores build metadata: with 1.0.0+old (deprecated) and 1.0.0+new offered, the selected 1.0.0+new is recorded with the other build's note (or, listed the other way round, loses its own)"
+	}
+	c.check(depOK, R, name, "deprecation of the selected version", p.Pos(site.Pos()), "the recorded deprecation is the one attached to the element whose version equals (==) the selected one", whyDep)
 	c.check(ranged > 0 && rangedOK, R, name, "deprecation looked up in the registry's answer on every path", p.Pos(site.Pos()), "the list searched is the response's versions or their cached copy", "on some path (e.g. a cache hit) the list searched for the selected version's deprecation is not the registry's answer (empty / a different list): whether a note is recorded then depends on the order packages were resolved in")
 }
 
